@@ -8,6 +8,7 @@ import (
 	"sync"
 
 	"verif/core"
+	"verif/runner"
 	"verif/theory"
 )
 
@@ -80,7 +81,7 @@ func checkC03(c *core.Ctx) {
 	sp := theory.AllSpellings()
 	variants := 1
 	if !c.Quick() {
-		variants = 8
+		variants = 11
 	}
 	per := len(sp) * (len(sp) + 1)
 	total := len(keys) * per
@@ -94,13 +95,13 @@ func checkC03(c *core.Ctx) {
 	var acceptedMu sync.Mutex
 	nCases := total * variants
 	if c.Quick() {
-		nCases = total + 2400 // the full --key sweep plus a seeded sample of the carried-key variants
+		nCases = total + 4400 // the full --key sweep plus a seeded sample of the carried-key variants
 	}
 	c.Stream("sweep", nCases, func(i int, rr *rand.Rand) {
 		variant := i / total
 		j := i % total
 		if c.Quick() && i >= total {
-			variant = 3 + rr.Intn(5)
+			variant = 3 + rr.Intn(8)
 			j = rr.Intn(total)
 		}
 		k := keys[j/per]
@@ -159,12 +160,63 @@ func checkC03(c *core.Ctx) {
 			args = []string{"text", "conv", "syllable"}
 			lead = 2
 		}
-		r := run(c, []byte(text), args...)
+		// a unicode accidental sign that straddles a 4096-byte boundary of the input (8): comment lines in front
+		viaFile := false
+		if variant == 8 {
+			text = strings.NewReplacer("#", "♯", "b", "♭").Replace(text)
+			if idx := strings.IndexAny(text, "♯♭"); idx >= 0 {
+				target := 4096*(1+j%3) - 1 - j%2 - idx // the sign starts at byte 4094 or 4095 (mod 4096)
+				var h strings.Builder
+				for h.Len() < target {
+					n := min(target-h.Len(), 80)
+					if rest := target - h.Len() - n; rest == 1 {
+						n-- // never leave a single byte for the last line (a line needs ';' and a line feed)
+					}
+					h.WriteString(";" + strings.Repeat("-", n-2) + "\n")
+				}
+				text = h.String() + text
+				viaFile = j%4 >= 2
+			}
+		}
+		// the key in force was reached from a key with the same tonic pitch but another spelling or mode (9)
+		if variant == 9 {
+			var twins []string
+			for _, o := range keys {
+				if o != k && (o.TonicOffset()-k.TonicOffset())%12 == 0 {
+					twins = append(twins, o.String())
+				}
+			}
+			if len(twins) > 0 {
+				tw := twins[j%len(twins)]
+				if j%2 == 0 {
+					text = "R[1]{key=" + k.String() + "} " + text
+					args = []string{"text", "conv", "syllable", "--key", tw}
+					lead = 1
+				} else {
+					text = "R[1]{key=" + tw + "} R[1]{key=" + k.String() + "} " + text
+					args = []string{"text", "conv", "syllable"}
+					lead = 2
+				}
+			}
+		}
+		// a rest announces one key, the chord right after it announces its own (10)
+		if variant == 10 {
+			other := keys[(j/per+3+j%11)%len(keys)].String()
+			text = "R[1]{key=" + other + "} R[2] " + text + "{key=" + k.String() + "}"
+			args = []string{"text", "conv", "syllable"}
+			lead = 2
+		}
+		var r *runner.Result
+		if viaFile {
+			r = run(c, nil, append(append([]string{}, args...), c.Scratch.File("c03.txt", []byte(text)))...)
+		} else {
+			r = run(c, []byte(text), args...)
+		}
 		c.Eval(1)
 		if infra(c, r) {
 			return
 		}
-		sig := fmt.Sprintf("v%d:%s:%s", variant, k, text)
+		sig := fmt.Sprintf("v%d:%s:%s", variant, k, short(text[max(0, len(text)-60):], 60))
 		if a := abnormal(r); a != "" {
 			c.Violate("sweep", i, sig+":abnormal", fmt.Sprintf("text conv syllable --key %s of %q %s", k, text, a), obs(r))
 			return
